@@ -12,6 +12,9 @@ For every spec: compile, run python_types (imported in-process) and python_type_
     names; every annotation against an independent Stone-type -> PEP 484 mapping computed from the IR; every name used in an
     annotation resolves to an import or a definition of the same stub (and attribute references into other modules exist).
 
+Inputs: hand seeds, sparse namespaces (see the section of that name: each typing / datetime import is needed by exactly one
+emission site of the namespace, so a site that loses its registration is not hidden by its neighbours), generated specs.
+
 Not judged (recorded): type variables `T`/`U`, `ROUTES`, annotation-type classes and their base, unused imports (an import the
 stub does not need is not a failure; a needed one that is missing is), private members, text layout.
 """
@@ -1185,6 +1188,240 @@ def suite_generated(ck, n_per_preset, batch=25):
             done += len(todo)
 
 
+# ------------------------------------------------------------------------------------------------------------------
+# sparse namespaces
+#
+# The imports of a stub are collected per namespace by side effects of the emission code (ImportTracker): every place
+# that writes `Optional[` / `List[` / `Dict[` / `datetime.` / `Text` has to register the import itself. In a namespace
+# of an ordinary spec each of these names is registered many times over, so one emission site that loses its
+# registration is hidden by its neighbours, and the specs of `specgen` practically never isolate a site. The specs built
+# here do: a provider namespace `prov` (rich on purpose) and leaf namespaces that hold ONE declaration with ONE member
+# whose annotation needs something ("feature"), everything else in the leaf being of types that need no import
+# (int / bool / float / bytes). The member reaches the leaf through every route the generators know: an own field, a
+# field inherited from a parent in another namespace (directly, through a third namespace, through a local parent), a
+# foreign alias, a union tag, an annotation-type parameter; controls (an extended union, a lone alias, a lone route)
+# need nothing. `sparse_matrix` enumerates site x feature, `sparse_random` draws nested feature types.
+
+PLAIN_TYPES = ('Int32', 'UInt64', 'Boolean', 'Float64', 'Bytes', 'Int64', 'Float32')
+
+# (key, type text with {q} = qualifier of provider types, default literal or None, is a primitive (possibly nullable))
+FEATURES = [
+    ('default-int', 'Int32', '7', True),
+    ('default-bool', 'Boolean', 'true', True),
+    ('default-float', 'Float64', '1.5', True),
+    ('default-string', 'String', '"s"', True),
+    ('default-timestamp', 'Timestamp("%Y")', '"2020"', True),
+    ('default-tag', '{q}Mode', 'on', False),
+    ('nullable-prim', 'Int32?', None, True),
+    ('nullable-bytes', 'Bytes?', None, True),
+    ('nullable-user', '{q}Foo?', None, False),
+    ('list-prim', 'List(Int32)', None, False),
+    ('list-user', 'List({q}Foo)', None, False),
+    ('map', 'Map(String, Int32)', None, False),
+    ('map-plain-value', 'Map(String, Boolean)', None, False),
+    ('timestamp', 'Timestamp("%Y-%m-%d")', None, True),
+    ('string', 'String', None, True),
+    ('user', '{q}Foo', None, False),
+    ('user-union', '{q}Mode', None, False),
+    ('plain', 'Int32', None, True),
+]
+
+SITES = ('own', 'inherit', 'inherit-nothing-added', 'inherit-via-namespace', 'inherit-via-local-parent', 'alias', 'tag',
+         'tag-alias', 'annotation-param', 'control-union-extends', 'control-alias-only', 'control-route-only')
+
+PROV_COMMON = {
+    'Foo': ['struct Foo', '    n Int32', ''],
+    'Mode': ['union Mode', '    on', '    off', ''],
+}
+
+
+def _plain_fields(rng, prefix, lo=0, hi=2):
+    return ['    %s%d %s' % (prefix, i, rng.choice(PLAIN_TYPES)) for i in range(rng.randint(lo, hi))]
+
+
+def _field_line(name, ftype, default, q):
+    return '    %s %s%s' % (name, ftype.replace('{q}', q), '' if default is None else ' = ' + default)
+
+
+def sparse_leaf(rng, idx, site, feature):
+    """One leaf namespace `lf<idx>` (and what it needs in the provider / in a namespace between), or None when the
+    combination is not expressible in Stone."""
+    key, ftype, default, prim = feature
+    ns = 'lf%d' % idx
+    foreign = '{q}' in ftype
+    prov = []          # definition blocks of the provider namespace
+    extra = []         # [(namespace name, lines)] of namespaces between provider and leaf
+    body = []
+    imports = {'prov'}
+    P, A, U, L = 'P%d' % idx, 'A%d' % idx, 'U%d' % idx, 'L%d' % idx
+
+    def parent_block():
+        return (['struct %s' % P] + _plain_fields(rng, 'pa', 0, 1) + [_field_line('feat', ftype, default, '')]
+                + _plain_fields(rng, 'pb', 0, 1) + [''])
+
+    if site == 'own':
+        body = ['struct %s' % L] + _plain_fields(rng, 'a') + [_field_line('feat', ftype, default, 'prov.')] + _plain_fields(rng, 'b')
+        if not foreign:
+            imports = set()
+    elif site in ('inherit', 'inherit-nothing-added'):
+        prov.append(parent_block())
+        own = _plain_fields(rng, 'own', 1, 2) if site == 'inherit' else ['    "Adds nothing."']
+        body = ['struct %s extends prov.%s' % (L, P)] + own
+    elif site == 'inherit-via-namespace':
+        if foreign:
+            return None        # the leaf would mention `prov` without naming it anywhere (the listed finding of C15)
+        prov.append(parent_block())
+        mid = 'mid%d' % idx
+        extra.append((mid, ['namespace %s' % mid, '', 'import prov', '', 'struct M%d extends prov.%s' % (idx, P)]
+                      + _plain_fields(rng, 'm', 1, 1) + ['']))
+        imports = {mid}
+        body = ['struct %s extends %s.M%d' % (L, mid, idx)] + _plain_fields(rng, 'own', 1, 2)
+    elif site == 'inherit-via-local-parent':
+        prov.append(parent_block())
+        body = (['struct M%d extends prov.%s' % (idx, P)] + _plain_fields(rng, 'm', 1, 1) + ['']
+                + ['struct %s extends M%d' % (L, idx)] + _plain_fields(rng, 'own', 1, 2))
+    elif site in ('alias', 'tag-alias'):
+        prov.append(['alias %s = %s' % (A, ftype.replace('{q}', '')), ''])
+        if site == 'alias':
+            body = ['struct %s' % L] + _plain_fields(rng, 'a') + [_field_line('feat', 'prov.' + A, default, 'prov.')] + _plain_fields(rng, 'b')
+        else:
+            if default is not None:
+                return None
+            body = ['union %s' % L, '    nothing', '    feat prov.%s' % A] + _plain_fields(rng, 't', 0, 1)
+    elif site == 'tag':
+        if default is not None:
+            return None
+        body = ['union %s' % L, '    nothing', _field_line('feat', ftype, None, 'prov.')] + _plain_fields(rng, 't', 0, 1)
+        if not foreign:
+            imports = set()
+    elif site == 'annotation-param':
+        if not prim:
+            return None
+        body = ['annotation_type %s' % L] + _plain_fields(rng, 'a', 0, 1) + [_field_line('feat', ftype, default, '')]
+        imports = set()
+    elif site == 'control-union-extends':
+        if default is not None:
+            return None
+        prov.append(['union %s' % U, '    base_tag', _field_line('feat', ftype, None, ''), ''])
+        body = ['union %s extends prov.%s' % (L, U), '    extra_tag']
+    elif site == 'control-alias-only':
+        body = ['alias %s = %s' % (L, ftype.replace('{q}', 'prov.'))]
+        if not foreign:
+            imports = set()
+    elif site == 'control-route-only':
+        prov.append(parent_block())
+        body = ['route r%d(prov.%s, Void, Void)' % (idx, P)]
+    else:
+        raise ValueError(site)
+    lines = ['namespace %s' % ns, ''] + ['import %s' % i for i in sorted(imports)] + ([''] if imports else []) + body + ['']
+    return {'ns': ns, 'site': site, 'feature': key, 'lines': lines, 'prov': prov, 'extra': extra}
+
+
+def sparse_assemble(leaves):
+    """[(path, text)] of provider + namespaces between + leaves"""
+    blocks = [b for lf in leaves for b in lf['prov']]
+    text = '\n'.join(l for b in blocks for l in b)
+    common = [PROV_COMMON[k] for k in ('Foo', 'Mode') if k in text or any(k in '\n'.join(lf['lines']) for lf in leaves)]
+    specs = []
+    if blocks or common:
+        specs.append(('prov.stone', '\n'.join(['namespace prov', ''] + [l for b in common + blocks for l in b]) + '\n'))
+    for lf in leaves:
+        for name, lines in lf['extra']:
+            specs.append((name + '.stone', '\n'.join(lines) + '\n'))
+        specs.append((lf['ns'] + '.stone', '\n'.join(lf['lines']) + '\n'))
+    return specs
+
+
+def _nested_feature(rng):
+    """a random type one or two constructors deep over primitives and provider types"""
+    cores = [('Int32', True), ('Boolean', True), ('Float64', True), ('Bytes', True), ('String', True),
+             ('Timestamp("%Y-%m-%dT%H:%M:%SZ")', True), ('{q}Foo', False), ('{q}Mode', False)]
+    t, prim = rng.choice(cores)
+    shape = []
+    for _ in range(rng.randint(0, 2)):
+        w = rng.choice(('list', 'map', 'nullable', 'list'))
+        if w == 'nullable':
+            if t.endswith('?'):
+                continue
+            t = t + '?'
+        elif w == 'list':
+            t, prim = 'List(%s)' % t, False
+        else:
+            t, prim = 'Map(String, %s)' % t, False
+        shape.append(w)
+    default = None
+    if not shape and rng.random() < 0.5:
+        default = {'Int32': '3', 'Boolean': 'false', 'Float64': '2.5', 'String': '"d"', '{q}Mode': 'off'}.get(t)
+    key = '+'.join(shape) if shape else ('default' if default is not None else 'bare')
+    return ('nested:' + key, t, default, prim)
+
+
+def _run_sparse(ck, batch):
+    """batch: [(leaves, label)]; a failure is reported on the smallest spec that still shows it: the leaf namespace
+    the failure is in, with what it needs of the provider"""
+    todo = [(sparse_assemble(leaves), label) for leaves, label in batch]
+    for (leaves, label), case in zip(batch, run_cases(ck, todo)):
+        if case is None:
+            ck.note('sparse spec %s rejected by the compiler' % label)
+            ck.stat('sparse.rejected')
+            continue
+        for lf in leaves:
+            ck.hist('sparse.site', lf['site'])
+            ck.hist('sparse.feature', lf['feature'])
+        if not case.problems:
+            continue
+        by_ns = {lf['ns']: lf for lf in leaves}
+        by_ns.update({name: lf for lf in leaves for name, _ in lf['extra']})
+        reduced = {}
+        for what, sig, detail in case.problems:
+            lf = by_ns.get(detail.get('ns'))
+            if lf is None or len(leaves) == 1:
+                ck.failing_input(what, sig, case.case_dict(detail=detail))
+                continue
+            if lf['ns'] not in reduced:
+                reduced[lf['ns']] = run_case(ck, sparse_assemble([lf]), '%s/%s:%s:%s' % (label, lf['ns'], lf['site'], lf['feature']))
+            small = reduced[lf['ns']]
+            same = [p for p in (small.problems if small is not None else []) if p[1] == sig]
+            if same:
+                ck.failing_input(same[0][0], sig, small.case_dict(detail=same[0][2]))
+            else:
+                ck.failing_input(what, sig, case.case_dict(detail=detail))
+
+
+def suite_sparse_matrix(ck, per_spec=10):
+    """every site x every feature, once; the cosmetic choices (number and types of the plain neighbours) come from ck.rng"""
+    combos = [(s, f) for s in SITES for f in FEATURES]
+    ck.rng.shuffle(combos)
+    leaves = []
+    for s, f in combos:
+        lf = sparse_leaf(ck.rng, len(leaves), s, f)
+        if lf is not None:
+            leaves.append(lf)
+    ck.stat('sparse.matrix-leaves', len(leaves))
+    batch = [(leaves[i:i + per_spec], 'sparse:matrix#%d' % (i // per_spec)) for i in range(0, len(leaves), per_spec)]
+    _run_sparse(ck, batch)
+
+
+def suite_sparse_random(ck, n_specs, batch=20):
+    done = 0
+    while done < n_specs:
+        if ck.budget_s and ck.elapsed() > ck.budget_s:
+            return
+        todo = []
+        for i in range(done, min(done + batch, n_specs)):
+            leaves = []
+            for _ in range(ck.rng.randint(1, 7)):
+                for _try in range(8):
+                    lf = sparse_leaf(ck.rng, len(leaves), ck.rng.choice(SITES[:9] if ck.rng.random() < 0.9 else SITES),
+                                     _nested_feature(ck.rng) if ck.rng.random() < 0.7 else ck.rng.choice(FEATURES))
+                    if lf is not None:
+                        leaves.append(lf)
+                        break
+            todo.append((leaves, 'sparse:random#%d' % i))
+        _run_sparse(ck, todo)
+        done += len(todo)
+
+
 FMT_NAMES = ['AS', 'HTTPCode', 'getFile_info', 'camelCase', 'snake_case', 'X', 'x1', 'T1', '_Hidden', 'under_score_', 'URLSpec',
              'IOError2', 'a__b', 'class', 'for', 'pass', 'while', 'async', 'continue', 'break', 'do/thing', 'get-file', 'ABc',
              'ABC', 'aBC', 'Ab1C2', 'v2_style', 'V2api', 'HTTP2Code', 'FooBAR', 'foo', 'Foo', 'fooBar', 'FOO_BAR', 'x_', '__x', 'A',
@@ -1222,7 +1459,10 @@ def spec_identifiers(n, rng):
 
 
 RULE = ('hand seeds (alias names changed by fmt_class, foreign alias chain, inherited foreign field, one-of-everything, reserved '
-        'words) then generated legal specs of the presets rt / py_safe / routes; per namespace: parsed .pyi vs stubNs, '
+        'words), sparse namespaces (one declaration whose single non-plain member needs an import, reached as own field / '
+        'inherited from another namespace directly, through a third namespace or a local parent / foreign alias / union tag / '
+        'annotation parameter: every site x every feature once, then random nested types), then generated legal specs of the '
+        'presets rt / py_safe / routes; per namespace: parsed .pyi vs stubNs, '
         'introspected module vs rtNs, judged names / resolved members / bases / constructor parameters / annotations vs the '
         'independent PEP 484 mapping / name resolution of every annotation on the real artefacts')
 
